@@ -20,8 +20,8 @@ package engine
 //@   requires en != nil && en.st != nil && state.flagsOk(en.st) && vm.memOk(en.ca)
 //@   modifies en.st.Code, en.exiting, en.exit, vm.cac(en.ca).LastValue
 //@   ensures @code en.st.Code == code && result1 == nil
-//@   ensures[C20] @more len(code) > 0 ==> result0 && unchanged(en.exiting, en.exit)
-//@   ensures[C20] @end len(code) == 0 ==> !result0 && (fl(en, state.FLAG_DIRTY) ==> en.exiting && en.exit == old(vm.cac(en.ca).LastValue))
+//@   ensures @more len(code) > 0 ==> result0 && unchanged(en.exiting, en.exit)
+//@   ensures @end len(code) == 0 ==> !result0 && (fl(en, state.FLAG_DIRTY) ==> en.exiting && en.exit == old(vm.cac(en.ca).LastValue))
 //@     && (!fl(en, state.FLAG_DIRTY) ==> unchanged(en.exiting, en.exit))
 
 // reset: unwind the whole stack (also the entry node), release the cache
@@ -96,14 +96,26 @@ package engine
 //@ pred beforeVm(en) = en != nil && en.st != nil && state.flagsOk(en.st) && en.rs != nil && vm.memOk(en.ca) && vm.memWf(en.ca)
 //@   && count(flagcount) == int(en.st.BitSize) && (en.st.input == nil || !sameBacking(en.st.input, en.st.Flags))
 //@   && vm.levels(en.ca) == vm.depth(en.st) + 1 && int(vm.cac(en.ca).CacheSize) < 2147483648 && !sameBacking(en.st.Code, en.st.Flags)
+//@   && allocated(en.st) && allocated(en.st.Flags) && vm.depth(en.st) <= state.MaxLevel
 //@ func (*DefaultEngine).preparePersist
 //@   assumed
 //@   requires en != nil
 //@   modifies en.st, en.ca
+// a state object supplied by the client or the persister is a well-formed State
+//@   ensures en.st != nil ==> state.flagsOk(en.st) && allocated(en.st)
+
+// ensureState: a new State with the configured flag count, or the supplied one; the configured
+// language is selected (and LANG raised, so that the VM puts it into the context) when none is set (C18)
 //@ func (*DefaultEngine).ensureState
-//@   assumed
-//@   requires en != nil
-//@   modifies en.st
+//@   serves C18
+//@   requires en != nil && (en.st != nil ==> state.flagsOk(en.st))
+// the flag array length is kept in one byte (state.toByteSize): at most 2040 flags including the 8 built-in ones
+//@   premise int(en.cfg.FlagCount) <= 2032
+//@   modifies en.st, en.st.Language, en.st.Flags[*]
+//@   ensures @state en.st != nil && state.flagsOk(en.st) && (old(en.st) != nil ==> en.st == old(en.st)) && (old(en.st) == nil ==> fresh(en.st))
+//@   ensures[C18] @cfglang isoKnown(en.cfg.Language) && (old(en.st) == nil || old(en.st.Language) == nil) ==> en.st.Language != nil
+//@     && en.st.Language.Code == isoPart3(en.cfg.Language) && state.flag(en.st, state.FLAG_LANG)
+//@   ensures[C18] @keeps old(en.st) != nil && old(en.st.Language) != nil ==> en.st.Language == old(en.st.Language)
 //@ func (*DefaultEngine).ensureMemory
 //@   assumed
 //@   requires en != nil
@@ -124,6 +136,8 @@ package engine
 //@   requires engOk(en)
 //@   requires[C08] vm.lockstep(en.vm) && vm.depth(en.st) <= state.MaxLevel
 //@   modifies everything except f:engine.Config., f:engine.DefaultEngine.vm, f:engine.DefaultEngine.st, f:engine.DefaultEngine.ca, f:engine.DefaultEngine.rs, f:engine.DefaultEngine.initd, f:engine.DefaultEngine.first, f:engine.DefaultEngine.pe, f:engine.DefaultEngine.dbg, f:engine.DefaultEngine.regexCount, f:state.State.BitSize, f:state.State.Flags, f:render.Sizer.outputSize, count(extcalls), count(codegets), count(written)
+//@   postulate[C08] @lockstep result1 == nil ==> vm.lockstep(en.vm)
+//@   ensures @quiet result0 && result1 == nil ==> unchanged(en.execd, en.exit, en.exiting)
 //@   postulate result1 == nil ==> engOk(en)
 //@   ensures @nofirst en.first == nil ==> result0 && result1 == nil
 //@   ensures[C06] @blocked old(fl(en, state.FLAG_TERMINATE)) ==> count(extcalls) == old(count(extcalls)) && count(codegets) == old(count(codegets))
@@ -152,22 +166,27 @@ package engine
 //@   requires[C08] en.initd || en.execd ==> vm.lockstep(en.vm) && !en.exiting
 //@   modifies everything except f:engine.Config., f:engine.DefaultEngine.rs, f:engine.DefaultEngine.first, f:engine.DefaultEngine.initd, f:engine.DefaultEngine.dbg, f:engine.DefaultEngine.regexCount, f:render.Sizer.outputSize, f:state.State.BitSize, f:state.State.Flags, count(extcalls), count(codegets), count(written)
 //@   ensures @ready result == nil ==> engOk(en)
+//@   ensures @alloc !old(en.initd) && result == nil ==> allocated(en.st) && allocated(en.st.Flags)
 //@   ensures[C07] @forgotten result == nil ==> !en.execd && len(en.exit) == 0 && !en.exiting
 //@   ensures @same old(en.initd) ==> en.st == old(en.st) && en.ca == old(en.ca) && en.vm == old(en.vm) && en.pe == old(en.pe)
 //@   ensures[C17] @idle old(idle(en)) ==> result == nil && sessionKept(en)
-//@   ensures[C08] @lockstep result == nil ==> vm.lockstep(en.vm)
+//@   ensures[C08] @lockstep result == nil ==> vm.lockstep(en.vm) && (!old(en.initd) ==> vm.depth(en.st) <= state.MaxLevel)
 
-// init and Exec are verified for the initialised engine (every request after
-// the first); the first-time path (persister, entry function) is covered only
-// by the assumed setup contracts above.
+// init and Exec are verified for the first request of an engine (setup from the
+// configuration and the persister through the assumed contracts above, entry
+// function, move to the start node) and for every later request.
 //@ func (*DefaultEngine).init
 //@   serves C17, C07
-//@   requires en != nil && en.rs != nil && en.initd && engOk(en)
-//@   requires[C08] vm.lockstep(en.vm) && !en.exiting
-//@   modifies everything except f:engine.Config., f:engine.DefaultEngine.rs, f:engine.DefaultEngine.first, f:engine.DefaultEngine.dbg, f:engine.DefaultEngine.regexCount, f:engine.DefaultEngine.initd, f:state.State.BitSize, f:state.State.Flags, f:render.Sizer.outputSize, count(extcalls), count(codegets), count(written)
-//@   ensures @ready result1 == nil ==> result0 && engOk(en) && sameEngine(en)
+//@   requires en != nil && en.rs != nil && (en.initd ==> engOk(en)) && (!en.initd ==> !en.execd)
+//@   premise len(en.cfg.Root) <= 255
+// the request's input buffer is not the session's flag array (the state may only exist after setup)
+//@   callsite (*state.State).SetInput assume @inputbuf !sameBacking(arg1, en.st.Flags)
+//@   requires[C08] en.initd ==> vm.lockstep(en.vm) && !en.exiting
+//@   modifies everything except f:engine.Config., f:engine.DefaultEngine.rs, f:engine.DefaultEngine.first, f:engine.DefaultEngine.dbg, f:engine.DefaultEngine.regexCount, f:state.State.BitSize, f:state.State.Flags, f:render.Sizer.outputSize, count(extcalls), count(codegets), count(written)
+//@   ensures @ready result1 == nil && result0 ==> engOk(en) && en.initd
+//@   ensures @again old(en.initd) && result1 == nil ==> result0 && sameEngine(en)
 //@   ensures[C08] @lockstep result1 == nil ==> vm.lockstep(en.vm)
-//@   ensures[C07] @forgotten result1 == nil ==> !en.execd && len(en.exit) == 0 && !en.exiting
+//@   ensures[C07] @forgotten result1 == nil && result0 ==> !en.execd && len(en.exit) == 0 && !en.exiting
 //@   ensures[C17] @idle old(idle(en)) ==> result0 && result1 == nil && sessionKept(en)
 
 // Exec: refused input (bad format, or longer than the limit) is an error for
@@ -177,10 +196,12 @@ package engine
 // the VM runs with the session's language in its context (C18)
 //@   callsite (*engine.DefaultEngine).exec assert[C18] @lang vm.langInCtx(ctx, en.st)
 //@   serves C17
-//@   premise len(en.cfg.Root) <= 255 && !sameBacking(input, en.st.Flags)
-//@   requires en != nil && en.rs != nil && en.initd && engOk(en)
-//@   requires[C08] vm.lockstep(en.vm) && !en.exiting
-//@   modifies everything except f:engine.Config., f:engine.DefaultEngine.rs, f:engine.DefaultEngine.first, f:engine.DefaultEngine.dbg, f:engine.DefaultEngine.regexCount, f:engine.DefaultEngine.initd, f:state.State.BitSize, f:state.State.Flags, f:render.Sizer.outputSize, count(extcalls), count(codegets), count(written), count(rejected)
+//@   premise len(en.cfg.Root) <= 255
+// the request's input buffer is not the session's flag array (on a first request the state exists only after setup)
+//@   callsite (*state.State).SetInput assume @inputbuf !sameBacking(arg1, en.st.Flags)
+//@   requires en != nil && en.rs != nil && (en.initd ==> engOk(en)) && (!en.initd ==> !en.execd)
+//@   requires[C08] en.initd ==> vm.lockstep(en.vm) && !en.exiting
+//@   modifies everything except f:engine.Config., f:engine.DefaultEngine.rs, f:engine.DefaultEngine.first, f:engine.DefaultEngine.dbg, f:engine.DefaultEngine.regexCount, f:state.State.BitSize, f:state.State.Flags, f:render.Sizer.outputSize, count(extcalls), count(codegets), count(written), count(rejected)
 //@   ensures[C17] @format old(idle(en)) && count(rejected) != old(count(rejected)) ==> result1 != nil && sessionKept(en)
 //@   ensures[C17] @length old(idle(en)) && len(input) > 255 ==> result1 != nil && sessionKept(en)
 
